@@ -104,6 +104,9 @@ impl CaseOut {
             self.inconclusive.push(why.to_string());
         }
         self.count("inconclusive", 1);
+        // per-reason tally (reasons are short fixed strings, sometimes followed by ':' and details)
+        let key = format!("inconclusive[{}]", why.split(':').next().unwrap_or(why).chars().take(90).collect::<String>());
+        self.count(&key, 1);
     }
 }
 
